@@ -236,11 +236,12 @@ func c11GenCase() *rapid.Generator[c11Case] {
 			}
 			c.Queries = append(c.Queries, q)
 		}
+		c.Tail = rapid.SampledFrom([]string{"", "", "", "restart", "rewrite", "rewrite+restart", "rewrite+restart", "snapshot+restart"}).Draw(t, "tail")
 		return c
 	})
 }
 
-const c11Rule = "rapid-generated directed multigraphs on 2-7 nodes (backbone: random / chain / chain through all 7 nodes / ring / two routes of different length / chain with flipped edges, then 0-17 random edits), 1-3 relation names, built through VLink (optionally with inverse relation, weight change = new edge version) and soft/hard VUnlink, some nodes without a vector; then 7-13 queries: FindPath (source, target, relation subset, depth 0-6, time = now / sampled between ops / exactly at a recorded op timestamp / 1 ns before or after it), VExtractSubgraph (root, relation subset, depth 1-7, same times), graph-scoped VSearch (root, relation subset, direction default/out/in/both, depth 1-7), VTraverse (1-2 relation paths of 1-13 segments); every answer compared with a reference BFS over the model's edge versions. NON-TRIVIAL = at least one FindPath query whose shortest path has >= 2 hops while the graph it sees (allowed relations, queried time) also contains a longer simple path between the same nodes or a directed cycle"
+const c11Rule = "rapid-generated directed multigraphs on 2-7 nodes (backbone: random / chain / chain through all 7 nodes / ring / two routes of different length / chain with flipped edges, then 0-17 random edits), 1-3 relation names, built through VLink (optionally with inverse relation, weight change = new edge version) and soft/hard VUnlink, some nodes without a vector; then 7-13 queries: FindPath (source, target, relation subset, depth 0-6, time = now / sampled between ops / exactly at a recorded op timestamp / 1 ns before or after it), VExtractSubgraph (root, relation subset, depth 1-7, same times), graph-scoped VSearch (root, relation subset, direction default/out/in/both, depth 1-7), VTraverse (1-2 relation paths of 1-13 segments); between building and asking optionally a restart, a log compaction, a compaction + restart or a snapshot + restart; every answer compared with a reference BFS over the model's edge versions. NON-TRIVIAL = at least one FindPath query whose shortest path has >= 2 hops while the graph it sees (allowed relations, queried time) also contains a longer simple path between the same nodes or a directed cycle"
 
 func TestVerif_C11_graphs(t *testing.T) {
 	col := verifkit.New("C11", "graphs", c11Rule)
@@ -277,6 +278,9 @@ func TestVerif_C11_graphs(t *testing.T) {
 			return // a call of an earlier case never returned; that case has been recorded, nothing more is executed
 		}
 		nt, labels := c11Classify(c)
+		if c.Tail != "" {
+			labels = append(labels, "tail:"+c.Tail)
+		}
 		col.Case(c, nt, labels...)
 		if msg := c11Run(c); msg != "" {
 			small, smsg := c11Minimize(c, c11Run)
